@@ -5,11 +5,13 @@
    (C12_on_state_time: the last state at that time whose tag does not exceed the asked tag answers;
    C12_on_state_time_none).  On real timing data: C12_roundtrip_interior, beat -> time -> beat is the identity
    for every tick-aligned beat strictly between event beats and outside the union of the warps.
+   C12_monotone: on timing data of the domain whose event beats lie on the tick grid the answer never decreases as time
+   increases, for every tag and all pairs of times (across states, pauses and warps).
    Left to the correspondence on the dyadic family (exact floats), with the oracle stating them directly:
-   warp segments with a stop or delay inside or starting on beat 0, global
-   monotonicity in time (C12_warp_elapse is the warp clause for the other segments; C12_half_tick the bound in beats). *)
+   warp segments with a stop or delay inside or starting on beat 0
+   (C12_warp_elapse is the warp clause for the other segments; C12_half_tick the bound in beats). *)
 From Coq Require Import List ZArith QArith Qabs Bool Sorting.Sorted.
-From SV Require Import Sx Beat Engine Proofs.EngineFacts Proofs.Hittable Proofs.TimeLaw Proofs.BeatAt Proofs.WarpElapse Proofs.RoundTripEvent.
+From SV Require Import Sx Beat Engine Proofs.EngineFacts Proofs.Hittable Proofs.TimeLaw Proofs.BeatAt Proofs.WarpElapse Proofs.RoundTripEvent Proofs.BeatMono.
 Import ListNotations.
 Open Scope Q_scope.
 
@@ -90,6 +92,23 @@ Theorem C12_monotone_local : forall pre s post d t1 t2 q,
   fst (beat_at_raw (pre ++ s :: post) d t1 q) <= fst (beat_at_raw (pre ++ s :: post) d t2 q).
 Proof. exact beat_at_monotone_local. Qed.
 Print Assumptions C12_monotone_local.
+
+(* the answer never decreases as time increases: all pairs of times, every tag, across states, pauses and warps, on
+   timing data of the domain whose event beats lie on the tick grid (what parsing a simfile always produces).  The
+   hypothesis is needed: an event 0.011 beats after another lets the rounding of the earlier state's answer (to 1/48)
+   pass the later event's beat. *)
+Theorem C12_monotone : forall td b0 v0 rest, dom td -> td_bpms td = (b0, v0) :: rest ->
+  (forall e, In e (events td) -> exists k : Z, e_beat e == inject_Z k / 48) ->
+  forall d t1 t2 q, t1 <= t2 ->
+  fst (beat_at_raw (sts td v0) d t1 q) <= fst (beat_at_raw (sts td v0) d t2 q).
+Proof. exact beat_at_monotone. Qed.
+Print Assumptions C12_monotone.
+
+(* the same on any list of states whose times never decrease and whose consecutive states are one step apart *)
+Theorem C12_monotone_chain : forall sts d t1 t2 q, sts <> [] -> times_sorted sts -> chain sts -> t1 <= t2 ->
+  fst (beat_at_raw sts d t1 q) <= fst (beat_at_raw sts d t2 q).
+Proof. exact beat_at_monotone_chain. Qed.
+Print Assumptions C12_monotone_chain.
 
 (* ... and a beat on which events sit (or beat 0) comes back too, under the default tag, when it is outside the union
    of the warps and the stops have positive length: together with C12_roundtrip_interior, every tick-aligned beat that
